@@ -153,6 +153,41 @@ def rule_a(ctx, rule='C10.a'):
     rep.require(rule, 'requester methods called by the application', n_sub, 4)
 
 
+
+def rule_release_needs_terminal(ctx, rule='C13.j'):
+    """C13.j  A live stream's id is given up only together with a terminal frame.  request(n) and cancel() are called
+    on a stream whose request frame may already be on the wire: a path through them - returning or raising - that
+    takes the handler out of the stream table without having queued a frame that ends the stream for the peer too
+    (CANCEL, ERROR, a completing PAYLOAD) leaves the peer serving an id that the allocator will hand out again after
+    wrap-around, and that an incoming request may now re-use without being rejected."""
+    rep = ctx.report
+    m = model(ctx)
+    n = 0
+    for h in m.handlers:
+        for en in m.entries(h):
+            if en.kind != 'method' or en.func.node.name not in ('request', 'cancel'):
+                continue
+            n += 1
+            bad = None
+            for p in m.run(en, init_bools(ctx, m, h)):
+                if p.outcome not in ('return', 'raise') or not m.finished(p):
+                    continue
+                if not any(m.emit_class(h, c, cm) for c, cm, _ in m.emitted(p)):
+                    bad = p
+                    break
+            where = ''
+            if bad is not None:
+                ev = [e for e in bad.events if e.kind == 'raise' and not e.data.get('implicit')]
+                where = 'the path that raises at line %s' % ev[-1].line if ev else 'a path'
+            rep.add(rule, '%s.%s / the id is released only with a terminal frame' % (h.name, en.func.node.name),
+                    en.func, bad is None,
+                    'no path releases the id without queueing a terminal frame' if bad is None else
+                    '%s takes the stream out of the table and sends nothing: the peer keeps serving an id that will be '
+                    'handed out again' % where)
+    rep.require(rule, 'request()/cancel() of registered handlers', n, 6)
+
+
+
 def _emits(m, h, p, cname):
     return any(c == cname and m.emit_class(h, c, cm) for c, cm, _ in m.emitted(p))
 
@@ -351,4 +386,4 @@ def rule_reactions(ctx):
     c01f(ctx)
 
 
-RULES = [('C10.a', rule_a), ('C10.b', rule_b), ('C10.c', rule_c), ('C05.a', rule_order), ('C03.c', rule_d), ('C10.d', rule_e), ('C10.a', rule_no_subscriber), ('C06.e', rule_small_publishers), ('C01.h', rule_adapter_cancellation), ('C05.b', rule_queue_only_drained_by_the_sender), ('C01.f', rule_reactions)]
+RULES = [('C10.a', rule_a), ('C10.b', rule_b), ('C10.c', rule_c), ('C05.a', rule_order), ('C03.c', rule_d), ('C10.d', rule_e), ('C10.a', rule_no_subscriber), ('C06.e', rule_small_publishers), ('C01.h', rule_adapter_cancellation), ('C05.b', rule_queue_only_drained_by_the_sender), ('C01.f', rule_reactions), ('C13.j', rule_release_needs_terminal)]
